@@ -126,11 +126,12 @@ def main(argv=None):
                                     "instances": ob["instances"], "ms": ob["ms"], "kind": r["kind"]})
             elif ob["status"] == "refuted":
                 if name in find_by_ob:
-                    known_hits.append((name, find_by_ob[name]))
+                    if name not in {k for k, _ in known_hits}:
+                        known_hits.append((name, find_by_ob[name]))
                     # a known finding is reported, not discharged and not an alarm
                     if r["kind"] != "bounded":
                         n_ob -= 1
-                else:
+                elif name not in {v["name"] for v in violations}:
                     violations.append(ob)
             else:
                 undecided.append((r["scenario"], [name, "solver: " + str(ob.get("detail"))]))
